@@ -174,6 +174,16 @@ namespace c09
                 }
             }
             if (!Ref<T>::eq(v, one)) kit::violate("C09/readers-disagree@serializer", "igris::deserialize<T>(string) and igris::deserialize<T>(storage) decode different values from the same bytes");
+            {
+                // the reader storage built from a message that its owner hands over with std::move (and keeps alive): the storage is
+                // a view of those bytes, also for a message short enough to live inside the string object
+                std::string kept(rest);
+                igris::deserialize_buffer_storage ms(std::move(kept));
+                T w = igris::deserialize<T>(ms);
+                if (!Ref<T>::eq(v, w) || (size_t)ms.avail() != (size_t)r.st.avail())
+                    kit::violate("C09/readers-disagree@serializer", "a reader storage built from std::move(message) (%zu bytes) decodes another value, or consumes another number of bytes, than one built from a buffer over the same bytes", left);
+                if (left < 16) kit::probe("reader_over_a_moved_short_message");
+            }
         }
     };
 
